@@ -171,6 +171,16 @@ def default_literal(form, val, s):
     return "0x%x" % val
 
 
+def default_variant(e):
+    """index of the variant that carries #[default] when the enum derives Default (e["derive_default"]), else None"""
+    if not e.get("derive_default"):
+        return None
+    for k, v in enumerate(e["variants"]):
+        if v.get("cfg", "none") == "none":
+            return k
+    return None
+
+
 def decl_field_type(d, f):
     """the field's type as written in the DECLARATION: arbitrary-int types may be spelled through a path"""
     t = field_type(d, f)
@@ -212,6 +222,9 @@ def decl_source(d, doc=False, derive_debug_enums=True, vis=None):
         out.append("#[bitbybit::bitenum(%s)]" % ", ".join(args))
         if derive_debug_enums:
             out.append("#[derive(Debug, PartialEq, Eq)]")
+        dflt = default_variant(e)
+        if dflt is not None:
+            out.append("#[derive(Default)]")            # a derive with a HELPER attribute (#[default]) on one variant
         if any(b >= 63 for v in e["variants"] for b in v["d"]):
             out.append("#[repr(u64)]")  # Rust's own rule: discriminants default to isize
         out.append("%senum %s {" % (vis, e["name"]))
@@ -220,6 +233,8 @@ def decl_source(d, doc=False, derive_debug_enums=True, vis=None):
                 out.append("    /// variant")
             for a in v.get("attrs", []):
                 out.append("    " + a)
+            if dflt is not None and v is e["variants"][dflt]:
+                out.append("    #[default]")
             if v.get("cfg") == "on":
                 out.append("    #[cfg(all())]")
             elif v.get("cfg") == "off":
